@@ -168,6 +168,7 @@ structure Stack where
   found : TStore SvcKey := []
   storeLog : List (Bool × SvcKey × Addr) := []   -- ghost: every store-level notification (true = offered) in order
   refreshLog : List (Addr × SvcKey × Nat × Nat) := []   -- ghost: (source, service, time, ttl) of every TimedStore.refresh of found_services
+  armLog : List (Cb × Nat × Nat) := []           -- ghost: (expiry callback, time, ttl) of every TimedStore.refresh that stores an entry (both stores)
   sendLog : List (Dest × (Bool × Nat)) := []     -- ghost: every (destination, (reboot flag, session id)) send_sd drew from the session storage
   flushLog : List (Dest × List SDEntry) := []    -- ghost: every batch of queued entries handed to send_sd (zero timeout: singletons; else a closed window)
   findTask : Option Nat := none
@@ -216,6 +217,7 @@ def draw (s : Stack) (a b : Nat) : Stack × Nat :=
 
 /-- arm the TTL timer of a TimedStore entry: `call_later(ttl, self._expired, ...)` unless the TTL is infinite -/
 def armTtl (s : Stack) (ttl : Nat) (cb : Cb) : Stack × Option Nat :=
+  let s := { s with armLog := s.armLog ++ [(cb, s.loop.now, ttl)] }
   if ttl ≠ TTL_FOREVER then
     let r := s.callLater (ttl * TICKS_PER_S) cb
     (r.1, some r.2)
